@@ -34,6 +34,9 @@ pub(crate) struct SubSocketBackend {
     socket_options: SocketOptions,
     pub(crate) socket_monitor: Mutex<Option<mpsc::Sender<SocketEvent>>>,
     subs: Mutex<HashSet<String>>,
+    // Serialises changes of the subscription set with the admission of new peers, so that a
+    // peer joining while subscribe()/unsubscribe() runs neither misses nor doubles a change.
+    subs_change: futures::lock::Mutex<()>,
 }
 
 impl SubSocketBackend {
@@ -50,6 +53,7 @@ impl SubSocketBackend {
             socket_options: options,
             socket_monitor: Mutex::new(None),
             subs: Mutex::new(HashSet::new()),
+            subs_change: futures::lock::Mutex::new(()),
         }
     }
 
@@ -85,6 +89,7 @@ impl MultiPeerBackend for SubSocketBackend {
     async fn peer_connected(self: Arc<Self>, peer_id: &PeerIdentity, io: FramedIo) {
         let (recv_queue, mut send_queue) = io.into_parts();
 
+        let _subs_change = self.subs_change.lock().await;
         let subs_msgs: Vec<ZmqMessage> = self
             .subs
             .lock()
@@ -140,6 +145,8 @@ impl Drop for SubSocket {
 
 impl SubSocket {
     pub async fn subscribe(&mut self, subscription: &str) -> ZmqResult<()> {
+        let backend = self.backend.clone();
+        let _subs_change = backend.subs_change.lock().await;
         // The subscriptions are a set: peers are told only when it changes, so that peers
         // that joined at different times keep the same view of it.
         if !self.backend.subs.lock().insert(subscription.to_string()) {
@@ -150,6 +157,8 @@ impl SubSocket {
     }
 
     pub async fn unsubscribe(&mut self, subscription: &str) -> ZmqResult<()> {
+        let backend = self.backend.clone();
+        let _subs_change = backend.subs_change.lock().await;
         if !self.backend.subs.lock().remove(subscription) {
             return Ok(());
         }
